@@ -62,6 +62,7 @@ type Op struct {
 	KK    int      `json:"kk,omitempty"`    // k
 	Ef    int      `json:"ef,omitempty"`
 	Alpha float64  `json:"alpha,omitempty"`
+	Expr  [][]FClause `json:"expr,omitempty"` // q_filter: OR of AND blocks (the AST the text in Q was rendered from)
 	// Expect is set by generators that know the op must be rejected (C05).
 	Expect string `json:"expect,omitempty"`
 }
@@ -116,6 +117,41 @@ func cloneMeta(m map[string]any) map[string]any {
 			v = append([]any(nil), l...)
 		}
 		c[k] = v
+	}
+	return c
+}
+
+// FClause is one comparison of a generated filter expression.
+type FClause struct {
+	Key string `json:"key"`
+	Op  string `json:"op"`
+	Lit string `json:"lit"` // literal text without quotes
+}
+
+// engineMeta converts the JSON-able metadata of an Op into what is handed to
+// the engine: {"$int": n} stands for a Go int (a caller of the embedded API may
+// pass one; JSON would turn it into float64).
+func engineMeta(m map[string]any) map[string]any {
+	c := cloneMeta(m)
+	for k, v := range c {
+		if mm, ok := v.(map[string]any); ok && len(mm) == 1 {
+			if n, ok := mm["$int"]; ok {
+				c[k] = int(toI64(n))
+			}
+		}
+	}
+	return c
+}
+
+// modelMeta is the logical value of the same metadata: numbers are numbers.
+func modelMeta(m map[string]any) map[string]any {
+	c := cloneMeta(m)
+	for k, v := range c {
+		if mm, ok := v.(map[string]any); ok && len(mm) == 1 {
+			if n, ok := mm["$int"]; ok {
+				c[k] = float64(toI64(n))
+			}
+		}
 	}
 	return c
 }
@@ -176,7 +212,7 @@ func (w *World) exec(op Op) (err error, out string) {
 		return e.VDeleteIndex(op.Idx), ""
 	case "add":
 		w.MarkTime()
-		return e.VAdd(op.Idx, op.ID, cloneVec(op.Vec), cloneMeta(op.Meta)), ""
+		return e.VAdd(op.Idx, op.ID, cloneVec(op.Vec), engineMeta(op.Meta)), ""
 	case "addbatch":
 		w.MarkTime()
 		return e.VAddBatch(op.Idx, toBatch(op.Items)), ""
@@ -189,7 +225,7 @@ func (w *World) exec(op Op) (err error, out string) {
 		w.MarkTime()
 		return e.VDelete(op.Idx, op.ID), ""
 	case "setmeta":
-		return e.VSetMetadata(op.Idx, op.ID, cloneMeta(op.Meta)), ""
+		return e.VSetMetadata(op.Idx, op.ID, engineMeta(op.Meta)), ""
 	case "reinforce":
 		return e.VReinforce(op.Idx, append([]string(nil), op.IDs...)), ""
 	case "evolve":
@@ -241,7 +277,7 @@ func (w *World) exec(op Op) (err error, out string) {
 func toBatch(items []Item) []types.BatchObject {
 	out := make([]types.BatchObject, len(items))
 	for i, it := range items {
-		out[i] = types.BatchObject{Id: it.ID, Vector: cloneVec(it.Vec), Metadata: cloneMeta(it.Meta)}
+		out[i] = types.BatchObject{Id: it.ID, Vector: cloneVec(it.Vec), Metadata: engineMeta(it.Meta)}
 	}
 	return out
 }
